@@ -302,7 +302,19 @@ pub fn unicode_ranges(line: &str) -> String {
     let name = line.trim().to_string();
     guarded(move || {
         // `fn:NAME`: the property function itself; `NAME`: what by_name resolves (the table's trie)
-        let f: Box<dyn Fn(char) -> bool> = if let Some(id) = name.strip_prefix("fn:") {
+        let f: Box<dyn Fn(char) -> bool> = if let Some(id) = name.strip_prefix("core:") {
+            // predicates of `char` itself (core's own tables)
+            match id {
+                "is_alphabetic" => Box::new(|c: char| c.is_alphabetic()),
+                "is_lowercase" => Box::new(|c: char| c.is_lowercase()),
+                "is_uppercase" => Box::new(|c: char| c.is_uppercase()),
+                "is_numeric" => Box::new(|c: char| c.is_numeric()),
+                "is_alphanumeric" => Box::new(|c: char| c.is_alphanumeric()),
+                "is_whitespace" => Box::new(|c: char| c.is_whitespace()),
+                "is_control" => Box::new(|c: char| c.is_control()),
+                _ => return "NONE".to_string(),
+            }
+        } else if let Some(id) = name.strip_prefix("fn:") {
             match unicode_fn(id) {
                 Some(f) => Box::new(f),
                 None => return "NONE".to_string(),
